@@ -176,6 +176,23 @@ def threshold_ldpc(rng, count, apis=("recv", "setavail"), finish=True, cbs=(None
     return execs
 
 
+def rs_every_code(rng, nmax8=24):
+    """every (k, n) of GF(2^4) and every (k, n <= nmax8) of the two GF(2^8) codecs, with as many source symbols lost as
+    the code can repair (up to three) and the same number of repair symbols in their place"""
+    execs = []
+    for (c, m, lim) in ((2, 4, 15), (1, 0, nmax8), (2, 8, nmax8)):
+        for n in range(2, lim + 1):
+            for k in range(1, n):
+                p = P(c, k, n - k, m=m)
+                for nl in sorted({min(k, n - k, 3), min(k, n - k, 2)}):
+                    lost = set(rng.sample(range(k), nl))
+                    sub = [e for e in range(k) if e not in lost] + rng.sample(range(k, n), nl)
+                    rng.shuffle(sub)
+                    api = rng.choice(["recv", "setavail"])
+                    execs.append(gen.decode_exec(p, sorted(sub) if api == "setavail" else sub, api=api, finish=True, probe="end"))
+    return execs
+
+
 def rs_pow2(rng, cbs=(None,)):
     """Reed-Solomon codes whose k, n or n-k are powers of two (or next to one): the sizes at which tables of k, n,
     k*k or n*k elements meet fixed-size buffers.  One encoder and one decoder (one source symbol lost) per code."""
@@ -532,6 +549,7 @@ def workload(pid, tier, rng):
         execs += rs_exhaustive(rs_small, rng, apis=("recv", "setavail"), orders=2 if q else 4, probe="each")
         execs += rs_exhaustive(rs_small, rng, apis=("mixed",), orders=1, probe="end")
         execs += rs_pow2(rng)
+        execs += rs_every_code(rng, 24 if q else 48)
         execs += rs_exhaustive(rs_mid, rng, apis=("recv", "setavail"), orders=1, probe="end", maxsub=150 if q else 1500)
         execs += random_rs(rng, 300 if q else 20000, 255)
         # the MDS argument rests on the generator being V_rest * V_top^-1: one (T: four) repair row(s) of EVERY k,
